@@ -19,8 +19,21 @@ Definition F := frame float.
 Definition gcellF := gcell V.
 Definition stateF := state V F.
 
-Inductive gobs := GSame | GDead | GNow (c : gcellF).
-Inductive tobs := TSame | TNow (c : tcell).
+Inductive gobs := GSame | GDead | GNow (c : gcellF) | GSameN (k : nat).   (* GSameN k = k times GSame *)
+Inductive tobs := TSame | TNow (c : tcell) | TSameN (k : nat).
+
+Fixpoint gexpand (l : list gobs) : list gobs :=
+  match l with
+  | [] => []
+  | GSameN k :: t => repeat GSame k ++ gexpand t
+  | x :: t => x :: gexpand t
+  end.
+Fixpoint texpand (l : list tobs) : list tobs :=
+  match l with
+  | [] => []
+  | TSameN k :: t => repeat TSame k ++ texpand t
+  | x :: t => x :: texpand t
+  end.
 Inductive oobs :=
 | OErr (e : err)            (* exception class *)
 | OOkMol (m : mol)          (* a molecule was returned: its topology / residue locations *)
@@ -69,6 +82,7 @@ Fixpoint gheap_agree (n0 k : nat) (old now : list gcellF) (obs : list gobs) : bo
        | GSame => match old with c0 :: _ => gcell_exact c0 c | [] => false end
        | GDead => true                                                 (* unreachable: nothing to compare *)
        | GNow c' => if Nat.leb n0 k then gcell_close c c' else gcell_exact c c'
+       | GSameN _ => false
        end) && gheap_agree n0 (S k) (tl old) now' obs'
   | _, _ => false
   end.
@@ -79,6 +93,7 @@ Fixpoint theap_agree (old now : list tcell) (obs : list tobs) : bool :=
       (match o with
        | TSame => match old with c0 :: _ => tcell_exact c0 c | [] => false end
        | TNow c' => tcell_exact c c'
+       | TSameN _ => false
        end) && theap_agree (tl old) now' obs'
   | _, _ => false
   end.
@@ -161,8 +176,8 @@ Fixpoint chk_steps (n0 : nat) (st : stateF) (ops : list (op V)) (obs : list sobs
       match out_agree st' (snd so) (o_out ob) with
       | Some c => c
       | None =>
-          if gheap_agree n0 0 (gro (s_heap st)) (gro (s_heap st')) (o_g ob) &&
-             theap_agree (top (s_heap st)) (top (s_heap st')) (o_t ob) &&
+          if gheap_agree n0 0 (gro (s_heap st)) (gro (s_heap st')) (gexpand (o_g ob)) &&
+             theap_agree (top (s_heap st)) (top (s_heap st')) (texpand (o_t ob)) &&
              nat_list_eqb (map fst (e_refsys (s_map st'))) (o_keys ob)
           then chk_steps n0 st' ops' obs' else DISAGREE
       end
